@@ -60,11 +60,14 @@ def build_items(opc, op, ctx, argval_byte):
     return items, off
 
 
-def make_code(opc, items, tracing=True):
+LINES = [1, 0, 999, 1000, 70000]
+
+
+def make_code(opc, items, tracing=True, firstline=1):
     vt = tuple(opc.version_tuple[:2])
     code_bytes = mkbytes(items) if tracing else bytes(items)
     kw = dict(co_code=code_bytes, co_consts=CONSTS, co_names=NAMES, co_varnames=VARNAMES, co_cellvars=CELLS, co_freevars=FREES,
-              co_filename="w.py", co_name="w", co_firstlineno=1, co_nlocals=len(VARNAMES), co_stacksize=4)
+              co_filename="w.py", co_name="w", co_firstlineno=firstline, co_nlocals=len(VARNAMES), co_stacksize=4)
     if vt >= (3, 11):
         kw["co_lnotab"] = bytes([0x80 | (0 << 3) | 0, 0x00])  # one short-form entry: line 1 for the first code unit
         kw["co_exceptiontable"] = b""
@@ -104,17 +107,20 @@ def check_listing(text, stream, fmt, opc):
             assert (repr(ins.arg) in rest) or (ins.argrepr and ins.argrepr in rest), "operand %r/%r missing in %r" % (ins.arg, ins.argrepr, ln)
 
 
-def make_ob(tname, opc, op, ctx, fmt, hi, tier):
+def make_ob(tname, opc, op, ctx, fmt, hi, tier, lines=False):
     vt = tuple(opc.version_tuple[:2])
     has_arg = op >= opc.HAVE_ARGUMENT
     use_src = has_interp(opc) and vt >= (3, 6)
     params = [("x", (0, hi if has_arg else 0))]
+    if lines:
+        params.append(("ln", (0, len(LINES) - 1)))
     localsplus = VARNAMES + tuple(c for c in CELLS if c not in VARNAMES) + FREES
 
     name = opc.opname[op]
 
-    def run(x, tracing):
+    def run(x, tracing, ln=0):
         import xdis.bytecode as B
+        firstline = LINES[ln]
         # operands the interpreter itself does not accept (valid bytecode never carries them)
         if name == "RAISE_VARARGS" and not (x <= (3 if vt < (3, 0) else 2)):
             return None
@@ -133,7 +139,7 @@ def make_ob(tname, opc, op, ctx, fmt, hi, tier):
                                          constants=CONSTS, cells=CELLS + FREES, localsplus=localsplus)
             except (IndexError, KeyError, ValueError, AssertionError, TypeError):
                 return None   # CPython's own dis rejects this operand: outside the statement
-        code = make_code(opc, items, tracing)
+        code = make_code(opc, items, tracing, firstline)
         cap_out, cap_err = io.StringIO(), io.StringIO()
         saved = sys.stdout, sys.stderr
         sys.stdout, sys.stderr = cap_out, cap_err
@@ -157,19 +163,19 @@ def make_ob(tname, opc, op, ctx, fmt, hi, tier):
             return "unfaithful: %s" % e
         return None
 
-    def body(x):
-        d = judge(run(x, True))
+    def body(x, ln=0):
+        d = judge(run(x, True, ln))
         assert d is None, d
 
-    def replay(x):
+    def replay(x, ln=0):
         try:
-            r = run(x, False)
+            r = run(x, False, ln)
         except Exception as e:
             return "Bytecode.dis(%s) on table %s, opcode %s operand %d raises %s: %s" % (fmt, tname, opc.opname[op], x, type(e).__name__, str(e)[:150])
         d = judge(r)
-        return None if d is None else "table %s opcode %s operand %d format %s: %s" % (tname, opc.opname[op], x, fmt, d)
+        return None if d is None else "table %s opcode %s operand %d first line %d format %s: %s" % (tname, opc.opname[op], x, LINES[ln], fmt, d)
 
-    return Ob(id="C12.%s.op%d.c%d.%s" % (tshort(tname), op, ctx, fmt), prop="C12", params=params, body=body, replay=replay,
+    return Ob(id="C12.%s.op%d.c%d.%s%s" % (tshort(tname), op, ctx, fmt, ".lines" if lines else ""), prop="C12", params=params, body=body, replay=replay,
               funcs=FUNCS, opaque_repr=False, region="%s.%s" % (tshort(tname), fmt),
               skeleton="table=%s opcode=%d(%s) context=%d loads format=%s" % (tname, op, opc.opname[op], ctx, fmt),
               bound="operand 0..%d within validity" % hi, timeout=60 if tier == "quick" else 200,
@@ -262,6 +268,11 @@ def generate(tier, seed):
                     continue   # no opcode-specific formatter: same generic path as the representatives kept
                 h = 2 if (fmt.startswith("extended") and opc.oppop[op] < 0) else hi
                 obs.append(make_ob(tname, opc, op, ctx, fmt, h, tier))
+        # line-number column: first line 0 (module-level code of 3.11+), 999/1000 (column width), 70000
+        for nm in ("LOAD_CONST", "RETURN_VALUE", "RESUME", "NOP"):
+            if nm in opc.opmap:
+                for fmt in (("classic", "extended-bytes") if tier == "quick" else ("classic", "bytes", "extended", "extended-bytes")):
+                    obs.append(make_ob(tname, opc, opc.opmap[nm], 6 if fmt.startswith("extended") else 0, fmt, 1, tier, lines=True))
         for fmt in ("classic", "xasm", "extended"):
             obs.append(disco_ob(tname, opc, fmt, tier))
     return obs
